@@ -20,6 +20,16 @@ def isCheck (e : String × String) : Bool := e == ("ret", "err") || e.1 == "call
 def calls (ev : List (String × String)) : List String := (ev.filter (fun e => e.1 == "call")).map (·.2)
 def writes (ev : List (String × String)) : List String := (ev.filter isWrite).map (·.2)
 
+/-- call names between consecutive `return nil`s. -/
+def segs : List (String × String) → List (List String)
+  | [] => [[]]
+  | e :: es =>
+    match segs es with
+    | [] => [[]]
+    | s :: ss => if e == ("ret", "nil") then [] :: s :: ss else if e.1 == "call" then (e.2 :: s) :: ss else s :: ss
+
+def errRets (ev : List (String × String)) : Nat := (ev.filter (· == ("ret", "err"))).length
+
 /-- there is a write, and no check (error return / call) comes after the first write. -/
 def writesLast (ev : List (String × String)) : Bool :=
   ev.any isWrite && (ev.dropWhile (fun e => !isWrite e)).all (fun e => !isCheck e)
@@ -29,39 +39,48 @@ theorem tie_extract_ok : C15.extractOK = true := by decide
 theorem tie_writes_after_checks :
     writesLast C15.addEvents = true ∧ writesLast C15.updEvents = true ∧ writesLast C15.delEvents = true := by decide
 
-/-- which maps an accepted request writes (model: info / hkeys+kids / nsMap all updated on add and
+/-- which maps an accepted request writes, in any order (model: info / hkeys+kids / nsMap all updated on add and
     update; delete removes from all three). -/
 theorem tie_written_maps :
-    writes C15.addEvents = ["quotaInfoMap", "quotaHierarchyInfo", "quotaHierarchyInfo", "quotaHierarchyInfo", "namespaceToQuotaMap"] ∧
-    writes C15.updEvents = ["quotaInfoMap", "quotaHierarchyInfo", "quotaHierarchyInfo", "namespaceToQuotaMap", "namespaceToQuotaMap"] ∧
-    writes C15.delEvents = ["quotaHierarchyInfo", "quotaHierarchyInfo", "quotaInfoMap", "namespaceToQuotaMap"] := by decide
+    (writes C15.addEvents).isPerm ["quotaInfoMap", "quotaHierarchyInfo", "quotaHierarchyInfo", "quotaHierarchyInfo", "namespaceToQuotaMap"] = true ∧
+    (writes C15.updEvents).isPerm ["quotaInfoMap", "quotaHierarchyInfo", "quotaHierarchyInfo", "namespaceToQuotaMap", "namespaceToQuotaMap"] = true ∧
+    (writes C15.delEvents).isPerm ["quotaHierarchyInfo", "quotaHierarchyInfo", "quotaInfoMap", "namespaceToQuotaMap"] = true := by decide
 
-/-- check order of the entry points (model: validAdd / validUpdate follow exactly this order). -/
-theorem tie_entry_order :
-    calls C15.addEvents = ["validateQuotaSelfItem", "NewQuotaInfoFromQuota", "validateQuotaTopology"] ∧
-    calls C15.updEvents = ["DeepEqual", "IsForbiddenModify", "validateQuotaSelfItem", "NewQuotaInfoFromQuota", "validateQuotaTopology"] := by decide
+/-- the checks of the entry points (model: validAdd / validUpdate demand all of them; their relative order is
+    irrelevant for the verdict, so it is not fixed here). -/
+theorem tie_entry_checks :
+    (calls C15.addEvents).isPerm ["validateQuotaSelfItem", "NewQuotaInfoFromQuota", "validateQuotaTopology"] = true ∧
+    (calls C15.updEvents).isPerm ["DeepEqual", "IsForbiddenModify", "validateQuotaSelfItem", "NewQuotaInfoFromQuota", "validateQuotaTopology"] = true ∧
+    errRets C15.addEvents = 5 ∧ errRets C15.updEvents = 6 ∧ errRets C15.delEvents = 6 := by decide
 
-/-- the unchanged-fields shortcut of ValidUpdateQuota returns nil right after the DeepEqual, before anything else. -/
+/-- the unchanged-fields shortcut of ValidUpdateQuota returns nil right after the DeepEqual, before anything else
+    (model: `sameFields` is tested first, even for the reserved names). -/
 theorem tie_update_shortcut : C15.updEvents.take 3 = [("ret", "err"), ("call", "DeepEqual"), ("ret", "nil")] := by decide
 
-/-- validateQuotaTopology = `topoCheck`: root name ⇒ nil; checkIsParentChange; checkTreeID; (parent root ∧ ¬is-parent) ⇒ nil;
-    checkParentQuotaInfo; checkSubAndParentGroupQuotaKey; checkMinQuotaValidate; [gate] checkGuaranteedForMin. -/
+/-- validateQuotaTopology = `topoCheck`: root name ⇒ nil; {checkIsParentChange, checkTreeID}; (parent root ∧ ¬is-parent) ⇒ nil;
+    checkParentQuotaInfo FIRST (the later checks dereference the parent), then {checkSubAndParentGroupQuotaKey,
+    checkMinQuotaValidate, [gate] checkGuaranteedForMin}; every check is followed by its error return. -/
 theorem tie_topology_order :
-    C15.topoEvents = [("ret", "nil"), ("call", "checkIsParentChange"), ("ret", "err"), ("call", "checkTreeID"), ("ret", "err"),
-      ("ret", "nil"), ("call", "checkParentQuotaInfo"), ("ret", "err"), ("call", "checkSubAndParentGroupQuotaKey"), ("ret", "err"),
-      ("call", "checkMinQuotaValidate"), ("ret", "err"), ("call", "checkGuaranteedForMin"), ("ret", "err"), ("ret", "nil")] ∧
-    C15.topoEarlyNil = ["newQuotaInfo.Name == extension.RootQuotaName",
-      "newQuotaInfo.ParentName == extension.RootQuotaName && !newQuotaInfo.IsParent"] := by decide
+    (segs C15.topoEvents).length = 4 ∧
+    (segs C15.topoEvents)[0]? = some [] ∧
+    ((segs C15.topoEvents)[1]?.getD []).isPerm ["checkIsParentChange", "checkTreeID"] = true ∧
+    ((segs C15.topoEvents)[2]?.getD []).head? = some "checkParentQuotaInfo" ∧
+    ((segs C15.topoEvents)[2]?.getD []).isPerm ["checkParentQuotaInfo", "checkSubAndParentGroupQuotaKey", "checkMinQuotaValidate", "checkGuaranteedForMin"] = true ∧
+    (segs C15.topoEvents)[3]? = some [] ∧
+    errRets C15.topoEvents = 6 ∧
+    C15.topoEarlyNil = ["$p1.Name == extension.RootQuotaName",
+      "$p1.ParentName == extension.RootQuotaName && !$p1.IsParent"] := by decide
 
-/-- the bypasses of the min-sum check are exactly allow-force-update and is-root (then: no children ⇒ nil). -/
+/-- the bypasses of the min-sum check are exactly allow-force-update and is-root (identifiers of the function
+    abstracted: $p0 = its parameter). -/
 theorem tie_min_bypasses :
-    C15.minEarlyNil = ["newQuotaInfo.AllowForceUpdate", "newQuotaInfo.IsTreeRoot", "!exist || len(children) == 0"] ∧
+    C15.minEarlyNil.isPerm ["$p0.AllowForceUpdate", "$p0.IsTreeRoot"] = true ∧
     calls C15.minEvents = ["getChildMinQuotaSumExceptSpecificChild", "getChildMinQuotaSumExceptSpecificChild"] := by decide
 
 /-- the upward walk exists, has len(quotaInfoMap)+1 iterations (model fuel `s.info.length + 1`), stops at the
-    root, rejects when it meets the quota itself, and steps to the recorded parent. -/
+    root, rejects when it meets the quota itself ($p0), and steps to the recorded parent. -/
 theorem tie_parent_walk :
-    C15.parentWalk = "i := 0 ; i <= len(qt.quotaInfoMap) && ancestor != extension.RootQuotaName ; i++" ∧
+    C15.parentWalk = "$v := 0 ; $v <= len($r.quotaInfoMap) && $v != extension.RootQuotaName ; $v++" ∧
     C15.parentWalkRejectsSelf = true ∧ C15.parentWalkStepsToParent = true ∧
     C15.parentEvents = [("ret", "err"), ("ret", "err"), ("ret", "err"), ("ret", "err"), ("ret", "nil")] := by decide
 
@@ -77,7 +96,7 @@ theorem tie_reserved_names :
 
 /-- an empty parent label means the root, except on the root-named object (model/harness: name 99 = ""). -/
 theorem tie_parent_defaulting :
-    C15.parentDefaulting = ["parentName == \"\" && quota.Name != RootQuotaName => return RootQuotaName"] := by decide
+    C15.parentDefaulting = ["$v == \"\" && $p0.Name != RootQuotaName => return RootQuotaName"] := by decide
 
 /-- the model fixes both gates at their default `false`. -/
 theorem tie_gates : C15.gateElasticQuotaEnableUpdateResourceKey = "false" ∧ C15.gateElasticQuotaGuaranteeUsage = "false" := by decide
